@@ -36,6 +36,144 @@ def is_print_to(st, fname='outfile'):
         and kw(st.value, 'file') is not None and norm(kw(st.value, 'file')) == fname
 
 
+def fmt_sig(f):
+    """significant digits a printf-style conversion keeps; 17 = all, None = not understood"""
+    mm = re.match(r'^%(?:\.(\d+))?([sreEgGfdi])$', f or '')
+    if not mm:
+        return None
+    prec, ch = mm.group(1), mm.group(2)
+    if ch in 'sr':
+        return 17
+    if ch in 'gG':
+        return (int(prec) if prec is not None else 6) or 1
+    if ch in 'eE':
+        return (int(prec) if prec is not None else 6) + 1
+    if ch in 'di':
+        return 0
+    return None
+
+
+def cell_formats(loop):
+    """text conversions of numbers inside the data loop: [(node, format text, 'row' | 'cell')]"""
+    out = []
+    for c in walk_expr(loop):
+        if isinstance(c, ast.Call) and isinstance(c.func, ast.Attribute) and c.func.attr == 'tofile':
+            f = kw(c, 'format')
+            out.append((c, const_str(f) if f is not None else None, 'row'))
+        elif isinstance(c, ast.BinOp) and isinstance(c.op, ast.Mod) and isinstance(c.left, ast.Constant) and isinstance(c.left.value, str) \
+                and re.match(r'^%[.\d]*[sreEgGfdi]$', c.left.value):
+            out.append((c, c.left.value, 'cell'))
+        elif isinstance(c, ast.Call) and dotted(c.func) in ('str', 'repr') and len(c.args) == 1:
+            out.append((c, '%s', 'cell'))
+        elif isinstance(c, ast.JoinedStr):
+            for fv_ in c.values:
+                if isinstance(fv_, ast.FormattedValue):
+                    spec = const_str(fv_.format_spec.values[0]) if fv_.format_spec is not None and fv_.format_spec.values else ''
+                    out.append((fv_, '%' + spec if spec else '%s', 'cell'))
+    return out
+
+
+def misscell(ctx, fn, data_loop, cells, where):
+    """R-MISSCELL: a cell that holds the missing code is written with the digits of the declared code.
+    Returns the conversions that write such cells ([] when they are not singled out)."""
+    ctx.rule('R-MISSCELL', 'a data cell that holds the missing code is written with a conversion that keeps every digit of the code (the reader compares exactly)')
+    lossy = [(c, f, k) for c, f, k in cells if fmt_sig(f) is None or fmt_sig(f) < 17]
+    if not lossy:
+        ctx.ok('R-MISSCELL', 'data cells', where, 'every cell is written with all digits')
+        return []
+
+    def mentions_code(e, tainted):
+        """the expression reads the missing code (not merely an array filled with it)"""
+        skip = set()
+        for n in ast.walk(e):
+            if isinstance(n, ast.Call) and (dotted(n.func) or '').split('.')[-1] == 'filled':
+                skip.update(id(x) for x in ast.walk(n))
+        for n in ast.walk(e):
+            if id(n) in skip:
+                continue
+            if isinstance(n, ast.Call) and dotted(n.func) == 'getattr' and len(n.args) >= 2 and const_str(n.args[1]) == 'missing_value':
+                return True
+            if isinstance(n, ast.Name) and n.id in tainted:
+                return True
+        return False
+    tainted = set()
+    for _ in range(6):
+        before = len(tainted)
+        for n in ast.walk(fn):
+            pairs = []
+            if isinstance(n, ast.Assign) and len(n.targets) == 1:
+                pairs.append((n.targets[0], n.value))
+            elif isinstance(n, (ast.For, ast.comprehension)):
+                it, tg = n.iter, n.target
+                if isinstance(it, ast.Call) and dotted(it.func) == 'zip' and isinstance(tg, ast.Tuple) and len(tg.elts) == len(it.args):
+                    pairs.extend(zip(tg.elts, it.args))
+                elif isinstance(it, ast.Call) and dotted(it.func) == 'enumerate' and isinstance(tg, ast.Tuple) and len(tg.elts) == 2 and it.args:
+                    pairs.append((tg.elts[1], it.args[0]))
+                else:
+                    pairs.append((tg, it))
+            for tg, val in pairs:
+                if mentions_code(val, tainted):
+                    for x in ast.walk(tg):
+                        if isinstance(x, ast.Name):
+                            tainted.add(x.id)
+        if len(tainted) == before:
+            break
+    # parents inside the data loop
+    par = {}
+    for n in ast.walk(data_loop):
+        for ch in ast.iter_child_nodes(n):
+            par[id(ch)] = n
+
+    def selecting_test(node):
+        """(test, in_equal_branch, other branch nodes) of the nearest choice on the code that encloses the conversion"""
+        cur = node
+        while id(cur) in par:
+            p_ = par[id(cur)]
+            if isinstance(p_, ast.IfExp) and cur is not p_.test:
+                t = p_.test
+                if isinstance(t, ast.Compare) and len(t.ops) == 1 and isinstance(t.ops[0], (ast.Eq, ast.NotEq)) and mentions_code(t, tainted):
+                    eq = isinstance(t.ops[0], ast.Eq)
+                    in_body = cur is p_.body
+                    return t, (in_body == eq), [p_.orelse if in_body else p_.body]
+            if isinstance(p_, ast.If) and cur is not p_.test:
+                t = p_.test
+                if isinstance(t, ast.Compare) and len(t.ops) == 1 and isinstance(t.ops[0], (ast.Eq, ast.NotEq)) and mentions_code(t, tainted):
+                    eq = isinstance(t.ops[0], ast.Eq)
+                    in_body = any(cur is b for b in p_.body)
+                    return t, (in_body == eq), (p_.orelse if in_body else p_.body)
+            cur = p_
+        return None, None, []
+    code_cells = []
+    for c, f, kind in lossy:
+        if kind == 'row':
+            ctx.violation(Finding('R-MISSCELL', RP, W, api.stmt_of(c), 'whole rows are written with %s: a cell filled with the missing code keeps %s significant digits while the header declares the code '
+                                  'with all of them, so a longer code (-99999999) does not read back as missing' % (f, fmt_sig(f))))
+            continue
+        t, in_eq, other = selecting_test(c)
+        if t is None:
+            ctx.violation(Finding('R-MISSCELL', RP, W, api.stmt_of(c), 'every cell, also one filled with the missing code, is written with %s (%s significant digits) while the header declares the code '
+                                  'with all digits: a longer code (-99999999) does not read back as missing' % (f, fmt_sig(f))))
+            continue
+        if in_eq:
+            ctx.violation(Finding('R-MISSCELL', RP, W, api.stmt_of(c), 'the cells equal to the missing code (%s) are the ones written with %s' % (norm(t), f)))
+            continue
+        exact = [(c2, f2) for n_ in other for c2, f2, k2 in cell_formats(n_) if fmt_sig(f2) == 17 and mentions_code(c2, tainted)]
+        if exact:
+            code_cells.extend((c2, f2, 'cell') for c2, f2 in exact)
+            ctx.ok('R-MISSCELL', norm(c)[:40], where, 'cells with %s are written as %s, the others with %s' % (norm(t), norm(exact[0][0]), f))
+        else:
+            ctx.violation(Finding('R-MISSCELL', RP, W, api.stmt_of(c), 'cells with %s are not written with an all-digit conversion of the code' % norm(t)))
+    # every read of the code in the writer has the same default
+    defaults = sorted(set(norm(n.args[2]) for n in ast.walk(fn) if isinstance(n, ast.Call) and dotted(n.func) == 'getattr' and len(n.args) == 3
+                          and const_str(n.args[1]) == 'missing_value'))
+    if len(defaults) > 1:
+        site = [n for n in ast.walk(fn) if isinstance(n, ast.Call) and dotted(n.func) == 'getattr' and len(n.args) == 3 and const_str(n.args[1]) == 'missing_value'
+                and norm(n.args[2]) == defaults[-1]][0]
+        ctx.violation(Finding('R-MISSCELL', RP, W, api.stmt_of(site), 'the writer reads the missing code with different defaults (%s): for a variable without the attribute the declared code, the fill and the '
+                              'cells singled out no longer agree' % ', '.join(defaults)))
+    return code_cells
+
+
 def run(ctx):
     for r, d in (('R-LINECOUNT', 'declared header/variable/comment counts equal the emitted line counts'),
                  ('R-LINEORDER', 'k-th written header line = what the reader assigns at li == k'),
@@ -66,9 +204,13 @@ def run(ctx):
     prints = []      # (stmt, kind, count Poly)
     loops = []
     data_loop = None
+    # the data loop is the last top-level loop that writes (row.tofile or a print to the output file)
+    _writing = [st for st in fn.body if isinstance(st, ast.For) and (
+        any(isinstance(c, ast.Call) and isinstance(c.func, ast.Attribute) and c.func.attr == 'tofile' for c in walk_expr(st))
+        or any(is_print_to(s) for s in iter_stmts(st.body)))]
+    _last_writing = _writing[-1] if _writing else None
     for st in fn.body:
-        if isinstance(st, ast.For) and any(isinstance(c, ast.Call) and isinstance(c.func, ast.Attribute) and c.func.attr == 'tofile'
-                                           for c in walk_expr(st)):
+        if st is _last_writing and cell_formats(st):
             data_loop = st
             break
         if is_print_to(st):
@@ -549,10 +691,12 @@ def run(ctx):
                                       'that carries such an attribute come back multiplied by it' % norm(elt)[:50]))
     # ---- R-MISSFMT: the declared code is written with at least the precision of the data cells that carry it
     ctx.rule('R-MISSFMT', 'the declared missing code is converted to text with at least as many significant digits as the data cells')
-    tf0 = [c for c in walk_expr(data_loop) if isinstance(c, ast.Call) and isinstance(c.func, ast.Attribute) and c.func.attr == 'tofile']
-    fmt0 = const_str(kw(tf0[0], 'format')) if tf0 and kw(tf0[0], 'format') is not None else None
-    m0 = re.match(r'^%\.(\d+)e$', fmt0 or '')
-    data_sig = int(m0.group(1)) + 1 if m0 else None
+    cells = cell_formats(data_loop)
+    lossy = [(c, f, k) for c, f, k in cells if fmt_sig(f) is None or fmt_sig(f) < 17]
+    # cells that hold the missing code: written like the other cells unless R-MISSCELL finds them singled out
+    code_cells = misscell(ctx, fn, data_loop, cells, where)
+    fmt0 = (code_cells or lossy or cells)[0][1]
+    data_sig = fmt_sig(fmt0)
 
     def conv_sig(e):
         """significant digits kept by the text conversion that wraps the getattr call; None = not understood"""
@@ -593,7 +737,8 @@ def run(ctx):
         ctx.violation(Finding('R-MISSFMT', RP, W, miss_print, 'the declared missing code is written with %s (%d significant digits%s) while data cells carry it with %s (%d): '
                               'for a code with more digits the declared and the filled value differ and no cell reads back as missing' % (
                                   how, sig, ', integer part only' if sig == 0 else '', fmt0, data_sig)))
-    ctx.assumptions.append('missing-value codes have at most as many significant digits as the data format writes (%s)' % fmt0)
+    if data_sig is not None and data_sig < 17:
+        ctx.assumptions.append('missing-value codes have at most as many significant digits as the data format writes (%s)' % fmt0)
     # ---- R-MISSPARSE: the reader parses the scale and missing-code entries with a function that accepts what the writer emits
     ctx.rule('R-MISSPARSE', 'reader: the entries of the scale and missing-code lines are parsed with a function that accepts the decimal text the writer emits')
     rdf = mod.func('ffi1001.__init__')
@@ -631,13 +776,12 @@ def run(ctx):
                 ctx.undec('R-MISSPARSE', which, wrd, 'parser %s not in the table' % conv)
     ctx.floor('scale / missing-code parsers judged by R-MISSPARSE', nparse, 2)
     # ---- R-PRECISION
-    tf = [c for c in walk_expr(data_loop) if isinstance(c, ast.Call) and isinstance(c.func, ast.Attribute) and c.func.attr == 'tofile']
-    fmt = const_str(kw(tf[0], 'format')) if tf and kw(tf[0], 'format') is not None else None
-    m = re.match(r'^%\.(\d+)e$', fmt or '')
-    if m and int(m.group(1)) >= 6:
-        ctx.ok('R-PRECISION', 'format', where, fmt)
-    else:
-        ctx.violation(Finding('R-PRECISION', RP, W, api.stmt_of(tf[0]) if tf else data_loop, 'data format is %r; seven significant digits need %%.6e or wider' % fmt))
+    for c_, fmt, kind_ in (lossy or cells[:1]):
+        m = re.match(r'^%\.(\d+)e$', fmt or '')
+        if (m and int(m.group(1)) >= 6) or fmt_sig(fmt) == 17:
+            ctx.ok('R-PRECISION', 'format', where, fmt)
+        else:
+            ctx.violation(Finding('R-PRECISION', RP, W, api.stmt_of(c_), 'data format is %r; seven significant digits need %%.6e or wider' % fmt))
     arr = [c for c in walk_expr(data_loop.iter) if isinstance(c, ast.Call) and (dotted(c.func) or '').split('.')[-1] == 'array']
     if arr:
         dt = kw(arr[0], 'dtype')
